@@ -11,6 +11,8 @@ from checks import expsim as X
 
 class C01:
     prop = "C01"
+    state_measure = ("of the simulated multi-process run(s): per queue (pipe length, outstanding count) x per live task (task kind, kind of "
+                     "thing it is blocked on), sampled at every scheduler decision; hashed; distinct values counted")
     level = "exploration"
     design_ref = "DESIGN.md 3.1"
     tiers = {"quick": {"runs": 2000, "budget_s": 80, "chunk": 8, "twice_every": 8, "shrink_s": 60},
